@@ -284,6 +284,13 @@ async def _run_script(ctx, inv, ev, script):
         elif op == 'redispatch':
             _, bus, label = st
             inv.dispatch(ctx.buses[bus], ctx.events[label])
+        elif op == 'redispatch_swallow':
+            # like redispatch, but a refusal (bus at capacity / queue full) is swallowed
+            _, bus, label = st
+            try:
+                inv.dispatch(ctx.buses[bus], ctx.events[label])
+            except Exception:
+                ctx.rejected_labels = getattr(ctx, 'rejected_labels', []) + [(bus, label)]
         elif op == 'raise':
             ex = EXC[st[1]](f'{inv.id}')
             ctx.exc_objects[inv.id] = ex
